@@ -200,8 +200,11 @@ def check(ctx: Ctx, ev: Evidence) -> list[Finding]:
                     if which == "dest":
                         # by the time the callback is reported the notice of cancellation already ran
                         disp = ename(h.ew(x.watch, "_params.completion_disposition"))
-                        k = f"dest handler | cancel on {cond} in {func} | disposition {disp}"
-                        ok = disp == "CANCELED"
+                        # "cancelled WITH THAT condition code": the declared condition is what the completion will report
+                        stored = [ename(y.args[0]) for y in e.ev[:i] if y.kind == "store" and y.name == "FinishedParams.condition_code"]
+                        rec = stored[-1] if stored else "<not stored>"
+                        k = f"dest handler | cancel on {cond} in {func} | disposition {disp} | condition recorded for the completion: {rec if rec != cond else 'the declared one'}"
+                        ok = disp == "CANCELED" and rec == cond
                     else:
                         cc = ename(h.ew(x.watch, "_params.cond_code_eof"))
                         k = f"source handler | cancel on {cond} in {func} | EOF condition {cc}"
